@@ -629,7 +629,8 @@ pub fn surface(sim: &Sim, mark: &ForkMark) -> Surface {
 	s
 }
 
-/// What a mempool transaction spends apart from wallet outputs of any node (see [`surface`]).
+/// Identity of a mempool transaction across the twin worlds: its txid, or - for transactions with wallet
+/// inputs (fee bumping), whose coin selection depends on handling order - what it spends apart from wallet outputs.
 pub fn mempool_key(sim: &Sim, tx: &bitcoin::Transaction) -> String {
 	let wallets: Vec<bitcoin::ScriptBuf> = sim.w.nodes.iter().filter_map(|nd| lightning::util::wallet_utils::WalletSourceSync::get_change_script(&*nd.wallet_source).ok()).collect();
 	let mut ins: Vec<String> = vec![];
@@ -641,7 +642,13 @@ pub fn mempool_key(sim: &Sim, tx: &bitcoin::Transaction) -> String {
 		ins.push(format!("{}", inp.previous_output));
 	}
 	ins.sort();
-	format!("spends[{}]", ins.join(","))
+	if ins.len() == tx.input.len() {
+		// no wallet input: the txid does not depend on signatures or coin selection and identifies the transaction
+		// (conflicting commitments of the two peers spend the same outpoint but are different candidates)
+		format!("tx:{}", tx.compute_txid())
+	} else {
+		format!("bump:spends[{}]", ins.join(","))
+	}
 }
 
 /// The miner of the twin worlds: candidates for the next block are the transactions present (by what they
